@@ -124,6 +124,7 @@ package signing
 //@   requires [public-shares-wellformed] forall k in 0..len(round.key.BigXj) :: (round.key.BigXj[k] != nil ==> (allocated(round.key.BigXj[k]) && wfPoint(round.key.BigXj[k])))
 //@   modifies *
 //@   ensures [C02.second-start-sends-nothing] old(round.started) ==> (result != nil && sent(old(round.out)) == old(sent(round.out)))
+//@   site common.GetRandomPositiveInt#0 : [C20.the-nonce-share-is-drawn-from-the-session-randomness] $arg0 == round.Parameters.rand
 
 //@ func (*round2).Start
 //@   props C06 C05 C02
